@@ -51,6 +51,12 @@ impl Decode for PVote {
         let term = u64::decode(&mut r)?;
         let node = u64::decode(&mut r)?;
         let c = u8::decode(&mut r)?;
+        // An application-level validity check that reports with its own error kind (neither UnexpectedEof nor
+        // InvalidData), as a real Vote type may: candidate ids start at 1. A zero-filled tail decodes as a SaveVote record
+        // (record type 0) and reaches this check.
+        if node == 0 {
+            return Err(io::Error::other("PVote: node id must not be 0"));
+        }
         Ok(PVote { term, node, committed: c != 0 })
     }
 }
@@ -106,8 +112,8 @@ pub fn run_one(seed: u64) -> Result<(u64, u64), Viol> {
                 0 => PVote { term: base.term, node: base.node + 1 + r.below(2), committed: r.chance(1, 2) }, // incomparable
                 1 => PVote { term: base.term, node: base.node, committed: true },
                 2 => PVote { term: base.term, node: base.node, committed: false },
-                3 => PVote { term: base.term + 1, node: r.below(4), committed: false },
-                4 => PVote { term: base.term.saturating_sub(1), node: r.below(4), committed: true },
+                3 => PVote { term: base.term + 1, node: 1 + r.below(4), committed: false },
+                4 => PVote { term: base.term.saturating_sub(1), node: 1 + r.below(4), committed: true },
                 _ => base.clone(),
             };
             let want = accepts(&cur, &cand);
@@ -154,6 +160,78 @@ pub fn run_one(seed: u64) -> Result<(u64, u64), Viol> {
     })();
     util::remove_dir(&dir);
     res
+}
+
+/// C10 with this Types instantiation: the newest chunk gets a zero-filled tail (from a record boundary) of various
+/// lengths; open must succeed, show exactly what was written and cut the file back. Returns the number of images.
+pub fn zero_tail_round(seed: u64) -> Result<u64, Viol> {
+    let mut r = Rng::new(seed);
+    let dir = util::fresh_dir("pvtail");
+    let cfg = CfgSpec { max_records: Some(*r.pick(&[3usize, 5, 1000])), read_buf: Some(*r.pick(&[1usize, 64, 4096])), ..Default::default() };
+    let mk = |sig: &str, text: String| Viol { prop: "C10".into(), sig: format!("C10:{}", sig), text, replay: json!({"kind": "pvtail", "seed": seed.to_string()}) };
+    let res = (|| -> Result<u64, Viol> {
+        let mut rl = RaftLog::<PV>::open(cfg.to_config(&dir)).map_err(|e| mk("pvote_open", e.to_string()))?;
+        let mut vote = PVote { term: 1, node: 1 + r.below(3), committed: false };
+        let mut entries: Vec<((u64, u64), String)> = vec![];
+        for i in 0..r.range(3, 9) {
+            if r.chance(1, 3) {
+                vote = PVote { term: vote.term + 1, node: 1 + r.below(3), committed: r.chance(1, 2) };
+                rl.save_vote(vote.clone()).map_err(|e| mk("pvote_write", e.to_string()))?;
+            } else {
+                let id = (1, entries.len() as u64);
+                let p = format!("pv{}", i);
+                rl.append(vec![(id, p.clone())]).map_err(|e| mk("pvote_write", e.to_string()))?;
+                entries.push((id, p));
+            }
+        }
+        let want_vote = rl.log_state().vote().cloned();
+        let fid = crate::trace::next_flush_id();
+        let _ = rl.flush(Some(AckCb::new(fid)));
+        let _ = crate::trace::wait_ack(fid, 60_000);
+        rl.wait_worker_idle();
+        drop(rl);
+        let files = crate::store::list_chunks(&dir);
+        let Some((_, newest)) = files.last().cloned() else { return Ok(0) };
+        let clean = std::fs::read(&newest).map_err(|e| mk("io", e.to_string()))?;
+        let mut n_images = 0;
+        for zeros in [21usize, 28, 29, 64, 1024, 1025, 70_000] {
+            let mut b = clean.clone();
+            b.extend(std::iter::repeat(0u8).take(zeros));
+            std::fs::write(&newest, &b).map_err(|e| mk("io", e.to_string()))?;
+            n_images += 1;
+            let opened = guarded(|| RaftLog::<PV>::open(cfg.to_config(&dir)));
+            match opened {
+                Err(p) => return Err(mk(&format!("open_panic:{}", p.rsplit(" @ ").next().unwrap_or("?")), format!("zero tail of {} bytes (vote type with its own validity check): open panicked: {}", zeros, p))),
+                Ok(Err(e)) => return Err(mk("open_refused", format!("newest chunk followed by {} zero bytes from a record boundary, vote type whose decoder rejects an all-zero vote with its own error kind: open refused: {}", zeros, e))),
+                Ok(Ok(rl2)) => {
+                    let got: Result<Vec<_>, _> = rl2.read(0, u64::MAX).collect();
+                    let got = got.map_err(|e| mk("read_error_after_recovery", e.to_string()))?;
+                    if rl2.log_state().vote().cloned() != want_vote || got != entries {
+                        return Err(mk("recovered_state_differs", format!("zero tail of {} bytes: recovered vote {:?} / {} entries, written {:?} / {}", zeros, rl2.log_state().vote(), got.len(), want_vote, entries.len())));
+                    }
+                    drop(rl2);
+                    let after = std::fs::read(&newest).unwrap_or_default();
+                    if after != clean {
+                        return Err(mk("tail_not_removed", format!("zero tail of {} bytes: the file is {} bytes after recovery (clean length {})", zeros, after.len(), clean.len())));
+                    }
+                    // restore the clean file for the next length (recovery may have started a new chunk)
+                    for (_, p) in crate::store::list_chunks(&dir) {
+                        if !files.iter().any(|(_, q)| *q == p) {
+                            let _ = std::fs::remove_file(p);
+                        }
+                    }
+                }
+            }
+        }
+        Ok(n_images)
+    })();
+    util::remove_dir(&dir);
+    res
+}
+
+pub fn replay_tail(vj: &serde_json::Value) -> Option<Viol> {
+    let seed: u64 = vj["seed"].as_str()?.parse().ok()?;
+    zero_tail_round(seed).err()
 }
 
 pub fn run(ctx: &mut Ctx, histories: u64, r: &mut Rng) {
